@@ -1,0 +1,49 @@
+//go:build verif
+
+// Contracts for the verif build tag (read by /verif/govc). Ghost specification
+// functions are real Go: the verifier unfolds their bodies, replays execute them.
+package compare
+
+import "bytes"
+
+// specCompareWithSlash is the hierarchical ("slash") order as a recursive
+// definition: compare the first path segments bytewise; a key without '/' sorts
+// before any key with one; equal first segments defer to the rest.
+//
+//@ func specCompareWithSlash
+//@ spec
+//@ property C11
+//@ decreases len(a)
+func specCompareWithSlash(a, b []byte) int {
+	if len(a) == 0 || len(b) == 0 {
+		if len(a) < len(b) {
+			return -1
+		}
+		if len(a) > len(b) {
+			return +1
+		}
+		return 0
+	}
+	ia, ib := bytes.IndexByte(a, '/'), bytes.IndexByte(b, '/')
+	if ia < 0 && ib < 0 {
+		return bytes.Compare(a, b)
+	}
+	if ia < 0 {
+		return -1
+	}
+	if ib < 0 {
+		return +1
+	}
+	if c := bytes.Compare(a[:ia], b[:ib]); c != 0 {
+		return c
+	}
+	return specCompareWithSlash(a[ia+1:], b[ib+1:])
+}
+
+//@ func CompareWithSlash
+//@ property C11 C15 C20
+//@ ensures result == specCompareWithSlash(a, b)
+//@ ensures -1 <= result && result <= 1
+//@ loop 0 invariant specCompareWithSlash(old(a), old(b)) == specCompareWithSlash(a, b)
+//@ loop 0 decreases len(a)
+//@ modifies nothing
